@@ -276,9 +276,16 @@ func (g *Gen) enumOpts(prefix, name string) []string {
 	}
 	var opts []string
 	seen := map[string]bool{}
-	if g.chance(1, 8) {
+	switch g.n(15) {
+	case 0:
 		opts = append(opts, "UNSPECIFIED")
 		seen["UNSPECIFIED"] = true
+	case 1:
+		opts = append(opts, pfx+"UNSPECIFIED") // explicit zero value written with the prefix
+		seen["UNSPECIFIED"] = true
+	case 2:
+		opts = append(opts, "X_UNSPECIFIED") // merely ends in UNSPECIFIED: an ordinary option
+		seen["X_UNSPECIFIED"] = true
 	}
 	n := g.n(5)
 	for i := 0; i < n; i++ {
